@@ -3,7 +3,8 @@
   requested disjoint sub-grids).
 
   Only property statements (and their non-vacuity examples) live here; helper lemmas are in
-  EasyMl/Lemmas/{MatrixViewSpec,Partition,PartitionGrid,FallibleMatrix}.lean.  The theorems
+  EasyMl/Lemmas/{MatrixViewSpec,MatrixViewEval,Partition,PartitionGrid,PartViews,InteropNames,
+  LiveView,MatrixEq,FallibleMatrix}.lean.  The theorems
   connect the code-shaped model (EasyMl/Model/MatrixView.lean: `MExpr.eval`, `partition` — the
   very definitions the `emlmodel` driver executes against the implementation) with the
   specification (EasyMl/Spec/MatrixView.lean: `MExpr.size`, `MExpr.cell`, `partitionSpec`,
@@ -14,6 +15,7 @@ import EasyMl.Lemmas.PartitionGrid
 import EasyMl.Lemmas.LiveView
 import EasyMl.Lemmas.MatrixEq
 import EasyMl.Lemmas.InteropNames
+import EasyMl.Lemmas.MatrixViewEval
 import EasyMl.Lemmas.PartViews
 
 namespace EasyMl.C12
@@ -111,6 +113,31 @@ example :
       e.cell 1 0 = none ∧ e.cell usizeMax usizeMax = none := by
   refine ⟨by simp only [MExpr.LeavesOk]; decide, by decide, by decide, by decide, by decide,
     by decide, by decide⟩
+
+/-- **The transposed view through the tensor side.**  `MExpr.swapped e` —
+    `MatrixRefTensor` over a `TensorAccess` in the order `[column, row]` over `TensorRefMatrix`
+    of `e` — has the size of `e` with rows and columns exchanged, its index `(i, j)` designates
+    the cell `e` designates by `(j, i)`, and it reports row-major for a column-major source and
+    vice versa (`Other` stays).  Being an `MExpr` constructor it is covered by
+    `mview_get_eq_spec` (built through the modelled `with_names`, `TensorAccess::try_from`,
+    `DimensionMappings::new`), `layout_eq_spec`, `view_cell_injective`, … -/
+theorem swapped_cell_equation (e : MExpr) (i j : Nat) :
+    (MExpr.swapped e).size = (e.size.2, e.size.1) ∧
+    (MExpr.swapped e).cell i j = e.cell j i ∧
+    (MExpr.swapped (MExpr.swapped e)).cell i j = e.cell i j ∧
+    (MExpr.swapped (MExpr.swapped e)).size = e.size ∧
+    (MExpr.swapped e).layoutSpec =
+      (match e.layoutSpec with
+       | .rowMajor => .columnMajor | .columnMajor => .rowMajor | .other => .other) :=
+  ⟨rfl, rfl, rfl, rfl, rfl⟩
+
+/-- Non-vacuity: the transposed 2×3 matrix is 3×2, column-major, and its cell (2, 1) is
+    offset 5. -/
+example : (MExpr.swapped (MExpr.leaf 2 3)).size = (3, 2) ∧
+    (MExpr.swapped (MExpr.leaf 2 3)).cell 2 1 = some 5 ∧
+    (MExpr.swapped (MExpr.leaf 2 3)).layout = .columnMajor ∧
+    (MExpr.swapped (MExpr.leaf 2 3)).Buildable = true := by
+  refine ⟨by decide, by decide, by decide, by decide⟩
 
 /-! ## The wrappers are positional: dimension names never matter -/
 
